@@ -67,9 +67,9 @@ ENTRIES = [
       "            bytes_left -= len(data)\n            content_data = self._decompress_data(data)\n\n            if bytes_left < 0:\n                data = data[:bytes_left]\n\n                _logger.warning(_('Content overrun.'))\n                self.close()\n\n            self._data_event_dispatcher.notify_read(data)\n", 'C19-D2'),
     B('length-flush-not-written', "        if file and content_data:\n            file.write(content_data)\n", "        if file and not content_data:\n            file.write(content_data)\n", 'C19-D2'),
     B('setup-after-readers',
-      "        if not raw:\n            self._setup_decompressor(response)\n\n        read_strategy = self.get_read_strategy(response)\n",
-      "        read_strategy = self.get_read_strategy(response)\n", 'C19-D2'),
-    B('setup-only-when-raw', "        if not raw:\n            self._setup_decompressor(response)", "        if raw:\n            self._setup_decompressor(response)", 'C19-D2'),
+      "            if not raw:\n                self._setup_decompressor(response)\n\n            read_strategy = self.get_read_strategy(response)\n",
+      "            read_strategy = self.get_read_strategy(response)\n", 'C19-D2'),
+    B('setup-only-when-raw', "            if not raw:\n                self._setup_decompressor(response)", "            if raw:\n                self._setup_decompressor(response)", 'C19-D2'),
     B('encoding-swapped', "            self._decompressor = wpull.decompression.GzipDecompressor()\n        elif encoding == 'deflate':\n            self._decompressor = wpull.decompression.DeflateDecompressor()",
       "            self._decompressor = wpull.decompression.DeflateDecompressor()\n        elif encoding == 'deflate':\n            self._decompressor = wpull.decompression.GzipDecompressor()", 'C19-D2'),
     B('encoding-case-sensitive', "response.fields.get('Content-Encoding', '').lower()", "response.fields.get('Content-Encoding', '')", 'C19-D2'),
